@@ -16,7 +16,7 @@ def object_case(rng, hostile=False, degenerate=False, allow_multiclass=True, n=N
     r = rng.random()
     if r < 0.4:
         case = gen.single_feature_case(rng, hostile_names=True, with_dev=rng.random() < 0.2,
-                                       quant_flavour=gen.pick(rng, [None, None, "jitter", "close4", "bigmag"]) if hostile else gen.pick(rng, [None, None, "jitter"]))
+                                       quant_flavour=gen.pick(rng, [None, None, "jitter", "close4", "bigmag", "epoch"]) if hostile else gen.pick(rng, [None, None, "jitter"]))
     else:
         kinds = ["binary", "binary", "continuous"] + (["multiclass"] if allow_multiclass else [])
         case = gen.multi_feature_case(rng, kind=gen.pick(rng, kinds), hostile=hostile, degenerate=degenerate, n=n or int(gen.pick(rng, [60, 150, 300, 600])),
